@@ -12,6 +12,11 @@ use crate::Ctx;
 // C11 header canonicalisation
 
 pub fn c11(ctx: &mut Ctx) {
+    c11_direct(ctx);
+    c11_requests(ctx);
+}
+
+pub fn c11_direct(ctx: &mut Ctx) {
     let mut rng = ctx.rng.fork();
     // (a) value canonicalisation three-way: crate / model / split-filter-join
     let mut tris = Vec::new();
@@ -38,7 +43,10 @@ pub fn c11(ctx: &mut Ctx) {
     }
     ctx.rep.add("exhaustive.hval_cases", 364);
     run_tris(ctx, tris);
+}
 
+fn c11_requests(ctx: &mut Ctx) {
+    let mut rng = ctx.rng.fork();
     // (b) reference-signed requests under header mutations
     let mut jobs = Vec::new();
     let must_refuse = "C11: a change to a signed header's value, multiplicity or value order did not invalidate the signature";
@@ -239,7 +247,7 @@ fn auth_params_multiset(line: &str) -> Option<Vec<(Vec<u8>, Vec<u8>)>> {
 
 /// Pieces of the model that C12 relies on, each against the crate / its dependencies:
 /// content-type parsing (CTYPE), UTF-8 validity (UTF8), UTF-8 labels (LABEL).
-fn c12_pieces(ctx: &mut Ctx) {
+pub fn c12_pieces(ctx: &mut Ctx) {
     let mut rng = ctx.rng.fork();
     let mut tris = Vec::new();
     // content-type header values over a directed alphabet, possibly several Content-Type headers
